@@ -11,6 +11,11 @@ Clauses
             list where no list is documented): TypeError or ValueError, never another
             exception class, never a silent None/NaN.  Asserted for callables whose
             docstring carries a :raises: clause.
+  outofrange  arguments outside a range whose violation the docstring documents as
+            ValueError (calendar fields, Pluto 1885-2099, finders -2000..4000, seasons
+            -1000..3000, target strings, polar latitudes for rise_set, abscissae outside an
+            interpolation table, eccentricity outside [0, 1)): TypeError/ValueError, never
+            another class, never silently accepted.
   history   a generated history of calls on pools of Angles, Epochs, Interpolation and
             CurveFitting objects with a shadow model (plain floats): after every step
             every pooled object equals its shadow (a callee that mutates its argument or
@@ -489,7 +494,94 @@ def body_history(case):
             "show": {"steps": len(steps), "mutators": nmut, "copies": ncopy}}
 
 
-CLAUSES = {"call": body_call, "illtyped": body_illtyped, "history": body_history}
+# ------------------------------------------------------------------- out-of-range clause
+
+def _oor_table():
+    from pymeeus.Pluto import Pluto
+    from pymeeus.Sun import Sun
+    from pymeeus.Moon import Moon
+    import pymeeus.Mercury as Me
+    import pymeeus.Venus as Ve
+    import pymeeus.Mars as Ma
+    import pymeeus.Jupiter as Ju
+    import pymeeus.Saturn as Sa
+    import pymeeus.Uranus as Ur
+    import pymeeus.Neptune as Ne
+
+    def ep_year(y):
+        return Epoch(2451545.0 + (y - 2000.0) * 365.25)
+    t = {
+        # documented: "No negative JDE will be allowed" / ValueError on wrong ranges
+        "epoch_year_low": lambda u: Epoch(int(-4713 - u), 1, 1),
+        "epoch_month_high": lambda u: Epoch(2000, int(13 + u), 1),
+        "epoch_month_zero": lambda u: Epoch(2000, -int(u), 1),
+        "epoch_day_high": lambda u: Epoch(2000, 1, 32 + u),
+        "epoch_day_low": lambda u: Epoch(2000, 1, 0.999 - u),
+        "epoch_feb30": lambda u: Epoch(2001 + int(u) * 4, 2, 29),
+        "epoch_hours": lambda u: Epoch(2000, 1, 1, 24 + u),
+        "epoch_minutes": lambda u: Epoch(2000, 1, 1, 0, 60 + u),
+        "epoch_seconds": lambda u: Epoch(2000, 1, 1, 0, 0, 60 + u),
+        "epoch_month_name": lambda u: Epoch(2000, "Foo" + "o" * int(u), 1),
+        "epoch_too_few": lambda u: Epoch(2000, 1),
+        "get_month_high": lambda u: Epoch.get_month(13 + int(u)),
+        "get_doy_feb30": lambda u: Epoch.get_doy(2001, 2, 30 + int(u) % 2),
+        "get_doy_month13": lambda u: Epoch.get_doy(2001, 13 + int(u), 3),
+        "doy2date_high": lambda u: Epoch.doy2date(2001, 366 + u),
+        "doy2date_low": lambda u: Epoch.doy2date(2001, 0.999 - u),
+        "moslem_month13": lambda u: Epoch.moslem2gregorian(1400, 13 + int(u), 1),
+        "pluto_high": lambda u: Pluto.geocentric_position(ep_year(2100.1 + u)),
+        "pluto_low": lambda u: Pluto.geometric_heliocentric_position(ep_year(1884.9 - u)),
+        "equinox_year_high": lambda u: Sun.get_equinox_solstice(3001 + int(u), "spring"),
+        "equinox_year_low": lambda u: Sun.get_equinox_solstice(-1001 - int(u), "winter"),
+        "equinox_target": lambda u: Sun.get_equinox_solstice(2000, "foo"),
+        "moon_phase_target": lambda u: Moon.moon_phase(ep_year(2000 + u), "foo"),
+        "moon_perigee_target": lambda u: Moon.moon_perigee_apogee(ep_year(2000 + u), "foo"),
+        "moon_nodes_target": lambda u: Moon.moon_passage_nodes(ep_year(2000 + u), "foo"),
+        "moon_decl_target": lambda u: Moon.moon_maximum_declination(ep_year(2000 + u), "foo"),
+        "rise_set_lat": lambda u: Epoch(2000, 6, 1).rise_set(Angle(min(89.9, 66.6 + u)), Angle(0.0)),
+        "rise_set_lat_south": lambda u: Epoch(2000, 6, 1).rise_set(Angle(max(-89.9, -66.6 - u)), Angle(0.0)),
+        "interp_outside": lambda u: Interpolation([1, 2, 3], [1, 4, 9])(3.001 + u),
+        "interp_outside_low": lambda u: Interpolation([1, 2, 3], [1, 4, 9]).derivative(0.999 - u),
+        "interp_duplicate": lambda u: Interpolation([1, 1, 3 + u], [1, 4, 9]),
+        "kepler_e_one": lambda u: Co.kepler_equation(1.0 + u, Angle(10.0)),
+        "kepler_e_negative": lambda u: Co.kepler_equation(-0.001 - u, Angle(10.0)),
+    }
+    finders = []
+    for mod_, cls, names in ((Me, "Mercury", ("inferior_conjunction", "superior_conjunction", "western_elongation",
+                                                "eastern_elongation", "station_longitude_1", "station_longitude_2")),
+                             (Ve, "Venus", ("inferior_conjunction", "superior_conjunction", "western_elongation",
+                                            "eastern_elongation", "station_longitude_1", "station_longitude_2")),
+                             (Ma, "Mars", ("conjunction", "opposition", "station_longitude_1", "station_longitude_2")),
+                             (Ju, "Jupiter", ("conjunction", "opposition", "station_longitude_1", "station_longitude_2")),
+                             (Sa, "Saturn", ("conjunction", "opposition", "station_longitude_1", "station_longitude_2")),
+                             (Ur, "Uranus", ("conjunction", "opposition")),
+                             (Ne, "Neptune", ("conjunction", "opposition"))):
+        for n in names:
+            f = getattr(getattr(mod_, cls), n)
+            t["%s.%s:high" % (cls, n)] = (lambda f: lambda u: f(ep_year(4001.0 + u)))(f)
+            t["%s.%s:low" % (cls, n)] = (lambda f: lambda u: f(ep_year(-2001.0 - u)))(f)
+    return t
+
+
+OOR = _oor_table()
+
+
+def body_outofrange(case):
+    kind = case["kind"]
+    u = case["u"]
+    try:
+        res = OOR[kind](u)
+    except (ValueError, TypeError):
+        return {"labels": ["rejected:" + kind.split(":")[0]], "nontrivial": True}
+    except Exception as e:
+        raise Violation("out-of-range argument (%s, u=%r) raised %s: %s; ValueError/TypeError is documented"
+                        % (kind, u, type(e).__name__, e), site=kind, kind="exception:" + type(e).__name__)
+    raise Violation("out-of-range argument (%s, u=%r) was silently accepted and returned %r although the "
+                    "docstring documents a ValueError" % (kind, u, res), site=kind, kind="silently_accepted")
+
+
+CLAUSES = {"call": body_call, "illtyped": body_illtyped, "history": body_history,
+           "outofrange": body_outofrange}
 
 API_BY_QUAL = {}
 for _k, _s in API.items():
@@ -600,6 +692,7 @@ def tasks(tier, seed):
         out.append(Task("t_call", shard=sh, nsh=nsh, per=25 * mult))
     for sh in range(4):
         out.append(Task("t_illtyped", shard=sh, nsh=4))
+    out.append(Task("t_outofrange", n=20 * mult))
     for sh in range(12 if tier == "quick" else 16):
         out.append(Task("t_history", shard=sh, n=60 * (1 if tier == "quick" else 12)))
     return out
@@ -647,3 +740,9 @@ def _example(spec, key):
 
 def t_history(rec, shard, n):
     rec.given("history", history_cases(), n, shard=shard)
+
+
+def t_outofrange(rec, n):
+    us = st.one_of(st.floats(0.0, 1.0), st.floats(0.0, 1000.0), st.sampled_from([0.0, 1e-9, 0.5, 1.0, 100.0]))
+    for kind in sorted(OOR):
+        rec.given("outofrange", st.builds(lambda u: {"kind": kind, "u": u}, us), n, shard=kind)
